@@ -40,6 +40,7 @@ package dt
 //@   ghostset e.list.elems = insert(old(e.list.elems), pos(e.list, e), new)
 //@   ghostset e.list.lastIns = old(pos(e.list, e))
 //@   ghostall Element.idx(x) = x == new ? pos(e.list, e) : (x.list == e.list && x != e.list.root && x.idx >= pos(e.list, e) ? x.idx + 1 : x.idx)
+//@   ensures others: forall m: List :: m != old(e.list) && old(wf(m)) ==> wf(m) && m.elems == old(m.elems)
 //@   ensures wf(e.list) && new.list == e.list
 //@   ensures e.list.elems == insert(old(e.list.elems), old(pos(e.list, e)), new) && e.list.lastIns == old(pos(e.list, e))
 
@@ -49,6 +50,7 @@ package dt
 //@   modifies e.list.length, e.list, e.prev.next, e.next.prev, e.list.elems, e.list.lastIns, Element.idx
 //@   ghostset old(e.list).elems = remove(old(e.list.elems), old(e.idx))
 //@   ghostall Element.idx(x) = old(x.list) == old(e.list) && x != old(e.list.root) && old(x.idx) > old(e.idx) ? old(x.idx) - 1 : old(x.idx)
+//@   ensures others: forall m: List :: m != old(e.list) && old(wf(m)) ==> wf(m) && m.elems == old(m.elems)
 //@   ensures e.list == nil && wf(old(e.list))
 //@   ensures old(e.list).elems == remove(old(e.list.elems), old(e.idx))
 
@@ -58,6 +60,7 @@ package dt
 
 //@ func (*List).lazySetup
 //@   props C16
+//@   inline
 //@   requires l == nil || lwf(l)
 //@   panics when l == nil
 //@   modifies l.root
@@ -74,6 +77,7 @@ package dt
 //@   props C16
 //@   requires wf(l) && it != nil && allocated(it) && (it.list != nil ==> wf(it.list))
 //@   modifies l.length, it.list, it.prev.next, it.next.prev, l.elems, l.lastIns, Element.idx
+//@   ensures others: forall m: List :: m != l && m != old(it.list) && old(wf(m)) ==> wf(m) && m.elems == old(m.elems)
 //@   ensures wf(l)
 //@   ensures removed: old(member(l, it)) ==> result == it && it.list == nil && l.elems == remove(old(l.elems), old(it.idx))
 //@   ensures rejected: !old(member(l, it)) ==> fresh(result) && !result.ok && result.list == nil && l.elems == old(l.elems) && it.list == old(it.list)
@@ -83,6 +87,7 @@ package dt
 //@   requires l == nil || lwf(l)
 //@   panics when l == nil
 //@   modifies l.root, l.length, Element.list, Element.next, Element.prev, l.elems, l.lastIns, Element.idx
+//@   ensures others: forall m: List :: m != l && old(wf(m)) ==> wf(m) && m.elems == old(m.elems)
 //@   ensures wf(l)
 //@   ensures nonempty: len(old(l.elems)) > 0 ==> result == old(l.elems[0]) && result.list == nil && l.elems == old(l.elems)[1:]
 //@   ensures empty: len(old(l.elems)) == 0 ==> fresh(result) && !result.ok && len(l.elems) == 0
@@ -92,6 +97,7 @@ package dt
 //@   requires l == nil || lwf(l)
 //@   panics when l == nil
 //@   modifies l.root, l.length, Element.list, Element.next, Element.prev, l.elems, l.lastIns, Element.idx
+//@   ensures others: forall m: List :: m != l && old(wf(m)) ==> wf(m) && m.elems == old(m.elems)
 //@   ensures wf(l)
 //@   ensures nonempty: len(old(l.elems)) > 0 ==> result == old(l.elems[len(l.elems) - 1]) && result.list == nil && l.elems == old(l.elems)[:len(old(l.elems)) - 1]
 //@   ensures empty: len(old(l.elems)) == 0 ==> fresh(result) && !result.ok && len(l.elems) == 0
@@ -118,6 +124,7 @@ package dt
 //@   props C16
 //@   requires e != nil && allocated(e) && anchored(e) && (new != nil ==> allocated(new) && new != e && (new.list != nil ==> wf(new.list)))
 //@   modifies e.list.length, new.list, new.prev, new.next, e.next, e.next.prev, e.list.elems, e.list.lastIns, Element.idx
+//@   ensures others: forall m: List :: m != old(e.list) && old(wf(m)) ==> wf(m) && m.elems == old(m.elems)
 //@   ensures rejected: (new == nil || !old(new.ok) || old(e.list) == nil || old(new.list) != nil) ==> result == e && (old(e.list) != nil ==> e.list.elems == old(e.list.elems) && wf(e.list)) && (new != nil ==> new.list == old(new.list) && new.next == old(new.next) && new.prev == old(new.prev))
 //@   ensures accepted: !(new == nil || !old(new.ok) || old(e.list) == nil || old(new.list) != nil) ==> result == new && wf(e.list) && new.list == e.list && e.list.elems == insert(old(e.list.elems), old(pos(e.list, e)), new) && e.list.lastIns == old(pos(e.list, e))
 
@@ -126,6 +133,7 @@ package dt
 //@   requires l == nil || lwf(l)
 //@   panics when l == nil
 //@   modifies l.root, l.length, Element.list, Element.next, Element.prev, l.elems, l.lastIns, Element.idx
+//@   ensures others: forall m: List :: m != l && old(wf(m)) ==> wf(m) && m.elems == old(m.elems)
 //@   ensures wf(l) && len(l.elems) == len(old(l.elems)) + 1 && l.elems[:len(old(l.elems))] == old(l.elems)
 //@   ensures cast(l.elems[len(l.elems) - 1], "*Element").item == it && fresh(l.elems[len(l.elems) - 1]) && l.lastIns == len(old(l.elems))
 
@@ -134,6 +142,7 @@ package dt
 //@   requires l == nil || lwf(l)
 //@   panics when l == nil
 //@   modifies l.root, l.length, Element.list, Element.next, Element.prev, l.elems, l.lastIns, Element.idx
+//@   ensures others: forall m: List :: m != l && old(wf(m)) ==> wf(m) && m.elems == old(m.elems)
 //@   ensures wf(l) && len(l.elems) == len(old(l.elems)) + 1 && l.elems[1:] == old(l.elems)
 //@   ensures cast(l.elems[0], "*Element").item == it && fresh(l.elems[0]) && l.lastIns == 0
 
@@ -142,6 +151,7 @@ package dt
 //@   props C16
 //@   requires e != nil && allocated(e) && anchored(e)
 //@   modifies e.list.length, e.list, e.prev.next, e.next.prev, e.list.elems, e.list.lastIns, Element.idx
+//@   ensures others: forall m: List :: m != old(e.list) && old(wf(m)) ==> wf(m) && m.elems == old(m.elems)
 //@   ensures removed: old(e.list) != nil && old(e.list.root) != e ==> result == true && e.list == nil && wf(old(e.list)) && old(e.list).elems == remove(old(e.list.elems), old(e.idx))
 //@   ensures rejected: !(old(e.list) != nil && old(e.list.root) != e) ==> result == false && e.list == old(e.list) && (e.list != nil ==> wf(e.list) && e.list.elems == old(e.list.elems))
 
@@ -237,3 +247,36 @@ package dt
 //@   ensures wf(h.list) && hsorted(h)
 //@   ensures empty: (old(h.list) == nil || len(old(h.list.elems)) == 0) ==> result1 == false && len(h.list.elems) == 0
 //@   ensures head: old(h.list) != nil && len(old(h.list.elems)) > 0 ==> result1 == true && result0 == cast(old(h.list.elems[0]), "*Element").item && h.list.elems == old(h.list.elems)[1:]
+
+// Extend moves every element of input, in order, to the end of l.
+//@ func (*List).Extend
+//@   props C16 C17
+//@   requires l != nil && lwf(l) && input != nil && lwf(input) && l != input
+//@   modifies l.root, List.length, Element.list, Element.next, Element.prev, List.elems, List.lastIns, Element.idx, input.root
+//@   ensures lwf(l) && lwf(input) && l.elems == old(l.elems) + old(input.elems) && len(input.elems) == 0
+//@   ensures len(old(input.elems)) > 0 ==> wf(l) && wf(input)
+//@   loop 1 invariant wf(l) && wf(input) && l != input && elem != nil && back != nil && back == (len(l.elems) > 0 ? l.elems[len(l.elems) - 1] : l.root)
+//@   loop 1 invariant 0 <= len(input.elems) && len(input.elems) <= len(old(input.elems)) && input.elems == old(input.elems)[len(old(input.elems)) - len(input.elems):]
+//@   loop 1 invariant elem.ok ==> allocated(elem) && elem.list == nil && elem != l.root && elem != input.root && len(input.elems) < len(old(input.elems)) && elem == old(input.elems)[len(old(input.elems)) - len(input.elems) - 1] && l.elems == old(l.elems) + old(input.elems)[:len(old(input.elems)) - len(input.elems) - 1]
+//@   loop 1 invariant !elem.ok ==> len(input.elems) == 0 && l.elems == old(l.elems) + old(input.elems)
+//@   loop 1 decreases len(input.elems) + (elem.ok ? 1 : 0)
+
+// ---------------------------------------------------------------------------
+// Merge sort (C17). asymLT: the comparison is asymmetric (part of "strict weak
+// ordering"); sortedBy: no element is lt its predecessor.
+// ---------------------------------------------------------------------------
+//@ pred asymLT(lt cmp.LessThan) = forall a: int, b: int :: apply(lt, a, b) ==> !apply(lt, b, a)
+//@ pred sortedBy(l *List, lt cmp.LessThan) = forall i: int :: 1 <= i && i < len(l.elems) ==> !apply(lt, cast(l.elems[i], "*Element").item, cast(l.elems[i - 1], "*Element").item)
+
+// split moves the first len - len/2 elements, in order, to a new list.
+//@ func split
+//@   props C17
+//@   requires list != nil && wf(list)
+//@   modifies list.root, List.length, Element.list, Element.next, Element.prev, List.elems, List.lastIns, Element.idx
+//@   ensures fresh(result) && wf(result) && wf(list)
+//@   ensures result.elems == old(list.elems)[:len(old(list.elems)) - len(old(list.elems)) / 2] && list.elems == old(list.elems)[len(old(list.elems)) - len(old(list.elems)) / 2:]
+//@   ensures others: forall m: List :: m != list && old(wf(m)) ==> wf(m) && m.elems == old(m.elems)
+//@   loop 1 invariant wf(list) && wf(out) && fresh(out) && out != list && total == len(old(list.elems)) && len(list.elems) >= total / 2 && len(list.elems) <= total
+//@   loop 1 invariant out.elems == old(list.elems)[:total - len(list.elems)] && list.elems == old(list.elems)[total - len(list.elems):]
+//@   loop 1 invariant forall m: List :: m != list && m != out && old(wf(m)) ==> wf(m) && m.elems == old(m.elems)
+//@   loop 1 decreases len(list.elems)
